@@ -67,7 +67,12 @@ type Input struct {
 	Scheme   string `json:"scheme"`   // x509 (valid NOW, no countersignature) | signingAuthority (valid at the signing time)
 	ChainLen int    `json:"chainLen"` // certificates in the chain, 1 = self-signed signing certificate; 0 = 2
 	BadCert  int    `json:"badCert"`  // when !TimestampOk: index (leaf = 0) of the certificate not valid at that time
-	BadHow   string `json:"badHow"`   // expired | notYetValid
+	BadHow   string `json:"badHow"`   // expired | notYetValid | noCountersignature (valid chain, a timestamp is demanded and missing)
+	// round 7: the statement's timestamp configuration and the distance from the end points of a validity period
+	TsaStore        bool   `json:"tsaStore"`        // the statement lists a tsa trust store as well
+	VerifyTimestamp string `json:"verifyTimestamp"` // "" | always | afterCertExpiry
+	BadBy           string `json:"badBy"`           // when !TimestampOk: "" (half an hour or more) | second (exactly one second outside)
+	Edge            string `json:"edge"`            // when TimestampOk: "" | notBefore | notAfter (the signing time IS that end point of certificate BadCert)
 }
 
 type Result struct {
@@ -97,22 +102,36 @@ type world struct {
 	workDir           string
 	fsDone            map[string]bool
 	chains            map[string]*common.Chain
+	signingTime       time.Time // the (whole-second) signing time every signature of the harness claims
 }
 
 // signingAge: every signature of the harness claims to have been produced two hours ago
 const signingAge = 2 * time.Hour
 
 // mintChain mints a chain of n certificates (leaf first, all with the scenario's leaf subject and a valid
-// code-signing shape) of which certificate `bad` (if >= 0) is not valid at the time `ref`.
-func mintChain(n, bad int, how string, ref time.Time) *common.Chain {
+// code-signing shape) of which certificate `special` (if >= 0) stands in the relation `how` to the time `ref`:
+// expired / notYetValid (outside by half an hour or more), expired-second / notYetValid-second (outside by exactly
+// one second), notBefore / notAfter (ref IS that end point of its validity period: still inside).
+func mintChain(n, special int, how string, ref time.Time) *common.Chain {
 	now := time.Now()
 	window := func(k int) (time.Time, time.Time) {
 		nb, na := now.Add(-48*time.Hour), now.Add(48*time.Hour)
-		if k == bad {
-			if how == "notYetValid" {
+		if k == special {
+			switch how {
+			case "notYetValid":
 				nb = ref.Add(time.Hour) // a renewed certificate: valid only after the reference time
-			} else {
+			case "notYetValid-second":
+				nb = ref.Add(time.Second)
+			case "expired":
 				na = ref.Add(-30 * time.Minute) // expired before the reference time
+			case "expired-second":
+				na = ref.Add(-time.Second)
+			case "notBefore":
+				nb = ref
+			case "notAfter":
+				na = ref
+			default:
+				panic("c02: mintChain " + how)
 			}
 		}
 		return nb, na
@@ -148,6 +167,10 @@ func neededType(in Input) (needed, other string) {
 	return "ca", "signingAuthority"
 }
 
+// chainBad: a certificate of the chain is minted outside the prescribed time (a failing validation whose reason
+// is a missing countersignature has a perfectly valid chain).
+func chainBad(in Input) bool { return !in.TimestampOk && in.BadHow != "noCountersignature" }
+
 // chainKey identifies the chain of the scenario ("" = one of the two original chains).
 func chainKey(in Input) string {
 	if in.ChainLen == 0 && !isSA(in) {
@@ -157,10 +180,13 @@ func chainKey(in Input) string {
 	if n == 0 {
 		n = 2
 	}
-	if in.TimestampOk {
+	if !chainBad(in) {
+		if in.TimestampOk && in.Edge != "" {
+			return fmt.Sprintf("n%d-edge%d-%s-sa=%v", n, in.BadCert, in.Edge, isSA(in))
+		}
 		return fmt.Sprintf("n%d-ok", n)
 	}
-	return fmt.Sprintf("n%d-bad%d-%s-sa=%v", n, in.BadCert, in.BadHow, isSA(in))
+	return fmt.Sprintf("n%d-bad%d-%s-%s-sa=%v", n, in.BadCert, in.BadHow, in.BadBy, isSA(in))
 }
 
 // rawSign signs with the format-specific envelope, stepping over the signer-side sanity checks of
@@ -279,8 +305,31 @@ func wellFormed(in Input) error {
 	if in.Scheme != "x509" && in.Scheme != "signingAuthority" && !(in.Scheme == "" && in.ChainLen == 0) {
 		return errors.New("scheme " + in.Scheme)
 	}
-	if chainKey(in) != "" && !in.TimestampOk && in.BadHow != "expired" && in.BadHow != "notYetValid" {
+	if chainKey(in) != "" && !in.TimestampOk && in.BadHow != "expired" && in.BadHow != "notYetValid" && in.BadHow != "noCountersignature" {
 		return errors.New("badHow " + in.BadHow)
+	}
+	if chainKey(in) == "" && !in.TimestampOk && in.BadHow != "expired" && in.BadHow != "noCountersignature" {
+		return errors.New("the original chain with the bad leaf is an expired one")
+	}
+	// round 7 (mirrors the first four conjuncts of concretisationOK)
+	if in.Edge != "" && in.Edge != "notBefore" && in.Edge != "notAfter" {
+		return errors.New("edge " + in.Edge)
+	}
+	if in.BadBy != "" && in.BadBy != "second" {
+		return errors.New("badBy " + in.BadBy)
+	}
+	if (in.Edge != "" || in.BadBy != "") && !isSA(in) {
+		return errors.New("only the signing time can be placed on / one second off an end point of a validity period")
+	}
+	if in.VerifyTimestamp != "" && in.VerifyTimestamp != "always" && in.VerifyTimestamp != "afterCertExpiry" {
+		return errors.New("verifyTimestamp " + in.VerifyTimestamp)
+	}
+	demanding := !isSA(in) && in.TsaStore && in.VerifyTimestamp != "afterCertExpiry"
+	if !in.TimestampOk && in.BadHow == "noCountersignature" && !demanding {
+		return errors.New("a missing countersignature fails only a statement that demands one")
+	}
+	if in.TimestampOk && !isSA(in) && in.TsaStore && in.VerifyTimestamp != "afterCertExpiry" {
+		return errors.New("the statement demands a timestamp and the signatures of the harness carry none")
 	}
 	if len(in.Stores) > 0 {
 		if trustOf(in.Stores) != in.Trust {
@@ -320,7 +369,7 @@ func (w *world) fsWorld(in Input, chain *common.Chain, entries []storeEntry) str
 	for _, e := range entries {
 		kinds = append(kinds, e.typ+":"+e.name+":"+e.kind)
 	}
-	key := fmt.Sprintf("%x", sha256.Sum256([]byte(fmt.Sprint(kinds, in.TimestampOk, chainKey(in)))))[:16]
+	key := fmt.Sprintf("%x", sha256.Sum256([]byte(fmt.Sprint(kinds, chainBad(in), chainKey(in)))))[:16]
 	base := filepath.Join(w.workDir, "c02fs", key)
 	if w.fsDone[key] {
 		return base
@@ -382,6 +431,7 @@ func newWorld(workDir string) *world {
 		fsDone:      map[string]bool{},
 		chains:      map[string]*common.Chain{},
 		workDir:     workDir,
+		signingTime: now.Truncate(time.Second).Add(-signingAge),
 	}
 }
 
@@ -394,18 +444,24 @@ func (w *world) chain(in Input) *common.Chain {
 		if n == 0 {
 			n = 2
 		}
-		bad, ref := -1, time.Now() // x509 without countersignature: valid at the time of verification
-		if !in.TimestampOk {
-			bad = in.BadCert
-		}
+		special, how, ref := -1, "", time.Now() // x509 without countersignature: valid at the time of verification
 		if isSA(in) {
-			ref = time.Now().Add(-signingAge) // signing authority: valid at the (authentic) signing time
+			ref = w.signingTime // signing authority: valid at the (authentic) signing time, to the second
 		}
-		c := mintChain(n, bad, in.BadHow, ref)
+		switch {
+		case chainBad(in):
+			special, how = in.BadCert, in.BadHow
+			if in.BadBy != "" {
+				how += "-" + in.BadBy
+			}
+		case in.TimestampOk && in.Edge != "":
+			special, how = in.BadCert, in.Edge
+		}
+		c := mintChain(n, special, how, ref)
 		w.chains[k] = c
 		return c
 	}
-	if in.TimestampOk {
+	if !chainBad(in) {
 		return w.good
 	}
 	return w.expiredLeaf
@@ -413,7 +469,7 @@ func (w *world) chain(in Input) *common.Chain {
 
 // envelope builds (and caches) the signature for the envelope-related part of the scenario.
 func (w *world) envelope(in Input, format string) []byte {
-	key := fmt.Sprint(format, in.PluginAttr, in.MinVerAttr, in.PluginVersion, in.ExtAttrs, in.Expired, in.TimestampOk, in.Scheme, chainKey(in))
+	key := fmt.Sprint(format, in.PluginAttr, in.MinVerAttr, in.PluginVersion, in.ExtAttrs, in.Expired, chainBad(in), in.Scheme, chainKey(in))
 	if b, ok := w.envCache[key]; ok {
 		return b
 	}
@@ -448,7 +504,7 @@ func (w *world) envelope(in Input, format string) []byte {
 		attrs = append(attrs, signature.Attribute{Key: a.Key, Critical: a.Critical, Value: "v-" + a.Key})
 	}
 	now := time.Now().Truncate(time.Second)
-	o := common.EnvOpts{Format: format, Chain: w.chain(in), Target: &target, ExtAttrs: attrs, SigningTime: now.Add(-signingAge)}
+	o := common.EnvOpts{Format: format, Chain: w.chain(in), Target: &target, ExtAttrs: attrs, SigningTime: w.signingTime}
 	if isSA(in) {
 		o.Scheme = common.SchemeAuthority
 	}
@@ -458,7 +514,7 @@ func (w *world) envelope(in Input, format string) []byte {
 		o.Expiry = now.Add(24 * time.Hour)
 	}
 	var b []byte
-	if chainKey(in) != "" && !in.TimestampOk {
+	if chainKey(in) != "" && (chainBad(in) || in.Edge != "") {
 		b = rawSign(o)
 	} else {
 		b = common.MustSign(o)
@@ -509,6 +565,25 @@ func runCase(w *world, in Input, format string) Obs {
 	for _, e := range entries {
 		trustStores = append(trustStores, e.typ+":"+e.name)
 	}
+	if in.TsaStore {
+		// a tsa store (holding a root certificate) listed first, between or last
+		const tsaName = "c02-tsa"
+		at := (in.ChainLen + len(in.Override) + len(in.ExtAttrs)) % (len(trustStores) + 1)
+		trustStores = append(trustStores[:at], append([]string{"tsa:" + tsaName}, trustStores[at:]...)...)
+		if in.StoreImpl == "fs" {
+			d := filepath.Join(fsBase, dir.X509TrustStoreDir("tsa", tsaName))
+			if _, serr := os.Stat(d); serr != nil {
+				if err := os.MkdirAll(d, 0o755); err != nil {
+					panic(err)
+				}
+				if err := os.WriteFile(filepath.Join(d, "tsa-root.crt"), common.PEM(w.unrelated.Root().Cert), 0o644); err != nil {
+					panic(err)
+				}
+			}
+		} else {
+			store.Certs["tsa:"+tsaName] = []*x509.Certificate{w.unrelated.Root().Cert}
+		}
+	}
 	rev := &common.ScriptedRevocation{}
 	switch in.Revocation {
 	case "ok":
@@ -537,11 +612,12 @@ func runCase(w *world, in Input, format string) Obs {
 		ov = nil
 	}
 	doc := &trustpolicy.OCIDocument{Version: "1.0", TrustPolicies: []trustpolicy.OCITrustPolicy{{
-		Name:                  "c02",
-		RegistryScopes:        []string{"*"},
-		SignatureVerification: trustpolicy.SignatureVerification{VerificationLevel: in.Level, Override: ov},
-		TrustStores:           trustStores,
-		TrustedIdentities:     []string{identity},
+		Name:           "c02",
+		RegistryScopes: []string{"*"},
+		SignatureVerification: trustpolicy.SignatureVerification{VerificationLevel: in.Level, Override: ov,
+			VerifyTimestamp: trustpolicy.TimestampOption(in.VerifyTimestamp)},
+		TrustStores:       trustStores,
+		TrustedIdentities: []string{identity},
 	}}}
 	sp := &common.ScriptedPlugin{}
 	mgr := &common.ScriptedManager{Plugins: map[string]pluginfw.Plugin{}}
@@ -885,6 +961,24 @@ func concretise(c *common.Ctx, in *Input) {
 			in.BadHow = pick(c, []string{"expired", "notYetValid"})
 		}
 	}
+	// round 7: the statement's timestamp configuration; how close to an end point of a validity period the signing time lies
+	in.TsaStore = chance(c, 0.45)
+	in.VerifyTimestamp = pick(c, []string{"", "always", "afterCertExpiry", "afterCertExpiry"})
+	if isSA(*in) {
+		// the scheme does not look at the timestamp configuration; the signing time has a resolution of one second
+		if in.TimestampOk && chance(c, 0.4) {
+			in.Edge, in.BadCert = pick(c, []string{"notBefore", "notAfter"}), c.Rand.Intn(in.ChainLen)
+		}
+		if !in.TimestampOk && chance(c, 0.4) {
+			in.BadBy = "second"
+		}
+	} else if in.TsaStore {
+		if in.TimestampOk {
+			in.VerifyTimestamp = "afterCertExpiry" // every other option demands the timestamp the signature does not carry
+		} else if in.VerifyTimestamp != "afterCertExpiry" && chance(c, 0.5) {
+			in.BadHow = "noCountersignature" // a valid chain: the timestamp is demanded and missing
+		}
+	}
 	fs := in.StoreImpl == "fs"
 	if fs && in.Trust == "emptyStores" {
 		in.Trust = pick(c, []string{"notFound", "storeError"})
@@ -1017,7 +1111,68 @@ func corpus() []Input {
 			}
 		}
 	}
+	// round 7a: every level (and a tightened / relaxed authenticTimestamp) x every timestamp configuration of the
+	// statement x chain length x {valid chain, each certificate expired / not yet valid}, scheme notary.x509
+	type tsCfg struct {
+		tsa bool
+		opt string
+	}
+	for _, lv := range []string{"strict", "permissive", "audit"} {
+		for _, ov := range [][][2]string{{}, {{"authenticTimestamp", "enforce"}}, {{"authenticTimestamp", "log"}}} {
+			for _, cfg := range []tsCfg{{false, "always"}, {false, "afterCertExpiry"}, {true, ""}, {true, "always"}, {true, "afterCertExpiry"}} {
+				for n := 1; n <= 3; n++ {
+					x := plain
+					x.Level, x.Override, x.Scheme, x.ChainLen, x.BadHow = lv, ov, "x509", n, "expired"
+					x.TsaStore, x.VerifyTimestamp = cfg.tsa, cfg.opt
+					if cfg.tsa && cfg.opt != "afterCertExpiry" {
+						x.TimestampOk, x.BadHow = false, "noCountersignature"
+					}
+					out = append(out, x) // the valid chain: passes unless a timestamp is demanded
+					for bad := 0; bad < n; bad++ {
+						for _, how := range []string{"expired", "notYetValid"} {
+							y := x
+							y.TimestampOk, y.BadCert, y.BadHow = false, bad, how
+							out = append(out, y)
+						}
+					}
+				}
+			}
+			// round 7b: scheme signingAuthority, the signing time on / one second off each end point of each certificate
+			for n := 1; n <= 4; n++ {
+				for k := 0; k < n; k++ {
+					x := plain
+					x.Level, x.Override, x.Scheme, x.ChainLen, x.BadCert, x.BadHow = lv, ov, "signingAuthority", n, k, "expired"
+					x.TsaStore, x.VerifyTimestamp = (n+k)%2 == 0, []string{"", "always", "afterCertExpiry"}[(n+k)%3]
+					for _, e := range []string{"notBefore", "notAfter"} {
+						y := x
+						y.Edge = e
+						out = append(out, y)
+					}
+					for _, how := range []string{"expired", "notYetValid"} {
+						y := x
+						y.TimestampOk, y.BadHow, y.BadBy = false, how, "second"
+						out = append(out, y)
+					}
+				}
+			}
+		}
+	}
 	return out
+}
+
+// where the prescribed time lies relative to the validity period of the scenario's special certificate
+func timePosition(in Input) string {
+	switch {
+	case in.TimestampOk && in.Edge != "":
+		return "at-" + in.Edge
+	case in.TimestampOk:
+		return "inside"
+	case in.BadHow == "noCountersignature":
+		return "inside(timestamp demanded)"
+	case in.BadBy != "":
+		return in.BadHow + "-by-one-" + in.BadBy
+	}
+	return in.BadHow
 }
 
 func badCertPosition(in Input) string {
@@ -1026,7 +1181,7 @@ func badCertPosition(in Input) string {
 		n = 2
 	}
 	switch {
-	case in.TimestampOk:
+	case !chainBad(in):
 		return "none"
 	case n == 1:
 		return "only"
@@ -1065,6 +1220,8 @@ func Run(c *common.Ctx) error {
 		c.Count("unloadable-store=" + brokenPosition(in.Stores))
 		c.Count(fmt.Sprintf("scheme=%s/chain=%d", in.Scheme, in.ChainLen))
 		c.Count("cert-invalid-at-time=" + in.Scheme + "/" + badCertPosition(in))
+		c.Count(fmt.Sprintf("timestamp-config=%s/tsa=%v/verifyTimestamp=%s/ok=%v", in.Scheme, in.TsaStore, in.VerifyTimestamp, in.TimestampOk))
+		c.Count("time-vs-period=" + in.Scheme + "/" + timePosition(in))
 	}
 	for _, in := range corpus() {
 		emit(in)
@@ -1072,7 +1229,7 @@ func Run(c *common.Ctx) error {
 	for k := 0; k < n; k++ {
 		emit(genInput(c))
 	}
-	c.Note("stratified random scenarios of processSignature (level x legal override x plugin attribute/state/version/capabilities x trust x identity x expiry x timestamp x revocation x verdicts x extended attributes); signatures are real JWS/COSE envelopes verified by the real verifier.Verify with instrumented trust store, revocation validator and plugin manager; each scenario is concretised along: the statement's trust store list (1-7 entries: anchor / unrelated / empty / unloadable / duplicate / other signing type, unloadable one before, between, after good ones) x trust store implementation (in-memory fake, real file-system store with missing directory / symlink / junk file) x public constructor (New, NewWithOptions, NewVerifierWithOptions, NewFromConfig, NewOCIVerifierFromConfig over a provisioned configuration directory) x revocation supply (RevocationCodeSigningValidator, deprecated RevocationClient, both with a contradicting client, none = default validator); x how the authentic-timestamp truth is realised (scheme notary.x509 without countersignature: a chain certificate not valid now; scheme notary.x509.signingAuthority: a chain certificate not valid at the signing time; chains of 1-4 certificates, the bad one being the leaf / a middle one / the last / the only one, expired before or valid only after that time; such signatures are produced by the format-specific envelope because the signer-side wrapper refuses them); a fixed grid of these runs first")
+	c.Note("stratified random scenarios of processSignature (level x legal override x plugin attribute/state/version/capabilities x trust x identity x expiry x timestamp x revocation x verdicts x extended attributes); signatures are real JWS/COSE envelopes verified by the real verifier.Verify with instrumented trust store, revocation validator and plugin manager; each scenario is concretised along: the statement's trust store list (1-7 entries: anchor / unrelated / empty / unloadable / duplicate / other signing type, unloadable one before, between, after good ones) x trust store implementation (in-memory fake, real file-system store with missing directory / symlink / junk file) x public constructor (New, NewWithOptions, NewVerifierWithOptions, NewFromConfig, NewOCIVerifierFromConfig over a provisioned configuration directory) x revocation supply (RevocationCodeSigningValidator, deprecated RevocationClient, both with a contradicting client, none = default validator); x how the authentic-timestamp truth is realised (scheme notary.x509 without countersignature: a chain certificate not valid now; scheme notary.x509.signingAuthority: a chain certificate not valid at the signing time; chains of 1-4 certificates, the bad one being the leaf / a middle one / the last / the only one, expired before or valid only after that time; such signatures are produced by the format-specific envelope because the signer-side wrapper refuses them); x the statement's timestamp configuration (a tsa trust store listed first / between / last or not at all x verifyTimestamp unset / always / afterCertExpiry; the signatures carry no countersignature, so a demanded timestamp fails the validation over a valid chain, and afterCertExpiry over an unexpired chain must judge like no tsa store at all - in particular a NOT YET valid certificate still fails) x the distance of the signing time from the end points of a validity period (signingAuthority: the signing time IS notBefore / notAfter of any one chain certificate = valid; exactly one second before notBefore / after notAfter = not valid); a fixed grid of these runs first")
 	return nil
 }
 
